@@ -38,8 +38,12 @@ Definition c_id (c : c16case) : Z :=
   match c with CAvail id _ _ _ _ _ => id | CSess id _ => id | CHand id _ => id end.
 
 (** ** availability time *)
+Section Rounding.
+(** The rounding of calcSegmentAvailabilityTime in the tree under test (read from its source by the harness). *)
+Variable rm : rounding.
+
 Definition avail_ok (r : rep) (loopMS : Z) (c : tcfg) (nr : Z) (o : oavail) : bool :=
-  match availMS_float r loopMS c nr, o with
+  match availMS_float_r rm r loopMS c nr, o with
   | Ok m, OAv ms => m =? ms
   | Panic _, OAvPanic => true
   | _, _ => false
@@ -54,7 +58,7 @@ Definition ev_of (e : cev) : event :=
   end.
 
 Definition scfg_of (s : sesscase) : scfg :=
-  mk_scfg (s_reps s) (s_ref s) (s_loopMS s) (s_segDurMS s) (s_cfg s) (s_timeline s) (s_test s) (s_dur s) (s_chunked s).
+  mk_scfg_r rm (s_reps s) (s_ref s) (s_loopMS s) (s_segDurMS s) (s_cfg s) (s_timeline s) (s_test s) (s_dur s) (s_chunked s).
 
 (** Per event: the PUTs that are made (attempts that writeSegment accepts), groups in order, and
     whether the API call of that event returns (a trigger is only taken by a running loop). *)
@@ -148,7 +152,7 @@ Definition case_ok (c : c16case) : bool :=
   | CHand _ h => hand_ok h
   end.
 
-Definition mismatches (cs : list c16case) : list Z :=
+Definition mismatches_r (cs : list c16case) : list Z :=
   map c_id (filter (fun c => negb (case_ok c)) cs).
 
 (** What the model computes for a case (shown in the replay of a mismatch). *)
@@ -157,12 +161,16 @@ Inductive view :=
 | VSess (inits : list Z) (per_ev : list (list (Z * Z * option Z * Z * bool))) (rets : list bool) (final : Z) (next : Z)
 | VHand (rets : list Z) (len : Z) (term : bool) (fail : option string).
 
-Definition model_view (c : c16case) : view :=
+Definition model_view_r (c : c16case) : view :=
   match c with
-  | CAvail _ r loopMS cfg nr _ => VAvail (availMS_float r loopMS cfg nr)
+  | CAvail _ r loopMS cfg nr _ => VAvail (availMS_float_r rm r loopMS cfg nr)
   | CSess _ s =>
     let '(inits, per_ev, rets, st1) := sess_model s in
     VSess inits (map (map (fun m => (mp_rep m, mp_nr m, mp_id m, mp_now m, mp_last m))) per_ev) rets
           (phase_code (ph st1)) (nextNr st1)
   | CHand _ h => let s := hand_model h in VHand (r_rets s) (lenZ (r_out s)) (hterminal s) (hfail s)
   end.
+End Rounding.
+
+Definition mismatches := mismatches_r RTrunc.
+Definition model_view := model_view_r RTrunc.
